@@ -70,6 +70,10 @@ def inject_errors(schema, rng):
                     yield 'temporary-pattern-as-option', (ri, si), with_cons((p, [('pat', '_t')]))
                     yield 'temporary-pattern-as-fn-arg', (ri, si), with_cons((p, [('fn', '$eq', [('lit', 'a'), ('pat', '_')])]))
             yield 'constraint-on-unknown-temporary', (ri, si), with_cons(('_nowhere', [('lit', 'a')]))
+            # a temporary pattern that occurs in ANOTHER definition of the same rule id (or in another rule) but not in this one
+            foreign = sorted({c[1] for r2 in rules for c in r2['comps'] if c[0] == 'pat' and c[1].startswith('_')} - set(temps))
+            if foreign:
+                yield 'constraint-on-temporary-of-another-definition', (ri, si), with_cons((foreign[0], [('lit', 'a')]))
         m = copy.deepcopy(schema)
         m['rules'][ri]['signers'] = sorted(set(r['signers']) | {'#undefined_signer'})
         yield 'undefined-signer', (ri,), m
@@ -96,11 +100,32 @@ def build(text):
     return model, Checker(model, lvs.USER_FNS)
 
 
+def clean_templates(rng):
+    """Well-formed schemas around the compiler's per-definition bookkeeping (a rule id defined several times, temporaries in one
+    definition only, constraints on them), plus the LVS template schemas used by C11/C12."""
+    a, b, c = rng.sample(lvs.LIT_TEXTS, 3)
+    R = lambda name, comps, cons=None, signers=None: {'name': name, 'comps': comps, 'cons': cons or [], 'signers': signers or []}   # noqa
+    L = lambda t: ('lit', t)   # noqa
+    P = lambda t: ('pat', t)   # noqa
+    out = [
+        {'rules': [R('#r', [L(a), P('_x')], [[('_x', [L(c)])]]), R('#r', [L(b), P('y')])]},
+        {'rules': [R('#r', [L(a), P('_x'), P('_x')], [[('_x', [L(c), L(b)])]]), R('#r', [L(b), P('y'), P('_')]), R('#q', [('ref', '#r'), L(a)])]},
+        {'rules': [R('#r', [L(a), P('y')]), R('#r', [L(b), P('_x')], [[('_x', [L(c)])]]), R('#r', [L(c), P('_t'), P('z')], [[('_t', [L(a)]), ('z', [L(b)])]])]},
+        {'rules': [R('#k', [L('L1'), P('_i'), P('x')], [[('_i', [L(a), L(b)])]]), R('#k', [L('L1'), P('x')]), R('#p', [L('L0'), P('x')], None, ['#k'])]},
+    ]
+    return out + lvs.template_schemas(rng, False) + lvs.template_schemas(rng, True)
+
+
 def check_text(ctx, rng):
-    nsch = ctx.n(24, 800)
+    nsch = ctx.n(18, 800)
     clean = []
-    for si in range(nsch):
-        schema = lvs.gen_schema(rng, with_signers=True, n_rules=rng.randint(2, 6))
+    templates = clean_templates(rng) if ctx.shard == 0 else []
+    for si in range(nsch + len(templates)):
+        if si >= nsch:
+            schema = templates[si - nsch]
+            ctx.klass('template-schema')
+        else:
+            schema = lvs.gen_schema(rng, with_signers=True, n_rules=rng.randint(2, 6))
         if lvs.alt_counts(schema)[0] > 100:
             continue
         text = lvs.schema_text(schema)
@@ -129,6 +154,12 @@ def check_text(ctx, rng):
                 ctx.report(f'clean-schema-raises:{type(e).__name__}@{raising_site(e)[0]}', f'{e!r}', {'schema': t2})
             ctx.case(('idiom', t2), nontrivial=True)
         injected = list(inject_errors(schema, rng))
+        if si >= nsch and len(injected) > 14:
+            # template schemas: mainly "must compile"; one injected error of every kind
+            by_kind = {}
+            for it in injected:
+                by_kind.setdefault(it[0], []).append(it)
+            injected = [rng.choice(v) for v in by_kind.values()]
         if ctx.quick and len(injected) > 50:
             # keep at least one of every kind, sample the positions
             by_kind = {}
@@ -270,6 +301,14 @@ def corruptions(model, rng, limit):
             nd.v_edges = [e]
         return nd
     signed = [i for i, nd in enumerate(model.nodes) if nd.sign_cons]
+    # Node records stored in another order than their ids say (every id still occurs exactly once)
+    for (a_, b_) in [(0, 1), (1, 2), (0, n - 1), (n - 2, n - 1)] + [tuple(sorted(rng.sample(range(n), 2))) for _ in range(2) if n >= 2]:
+        if 0 <= a_ < b_ < n:
+            def swap(m, a_=a_, b_=b_):
+                lst = list(m.nodes)
+                lst[a_], lst[b_] = lst[b_], lst[a_]
+                m.nodes = lst
+            out.append((f'unreachable-free.records-swapped{a_},{b_}', swap))
     # nodes that cannot be reached from the root (tolerated), well-formed and not
     out.append(('unreachable.ok', lambda m: m.nodes.append(mk(n, None))))
     out.append(('unreachable.chain-ok', lambda m: m.nodes.extend([mk(n, None, v_to=n + 1), mk(n + 1, n)])))
@@ -292,7 +331,7 @@ def corruptions(model, rng, limit):
             m.nodes.append(mk(n, None))
         out.append((f'node{i}.signer-to-unreachable-ok', mut2))
     if len(out) > limit:
-        first = [o for o in out if 'unreachable' in o[0]]
+        first = [o for o in out if 'unreachable' in o[0]]      # (also the swapped-record cases)
         keep = [o for o in out if ('parent' in o[0] or o[0].startswith('version')) and o not in first]
         rest = [o for o in out if o not in keep and o not in first]
         keep = keep[:max(0, limit // 2 - len(first) // 2)]
@@ -302,7 +341,7 @@ def corruptions(model, rng, limit):
 
 def check_binary(ctx, rng, clean):
     per_model = 80 if ctx.quick else 600
-    for (schema, text, checker) in clean[: (14 if ctx.quick else len(clean))]:
+    for (schema, text, checker) in clean[: (9 if ctx.quick else len(clean))]:
         blob = checker.save()
         ref = lvs.Ref(schema, lvs.USER_FNS)
         alphabet = [lvs.lit(t) for t in ref.literals()] + [rc.comp(8, b'zz')]
